@@ -140,6 +140,7 @@ class C06(Prop):
         T = self.T()
         n = 0
         i = 0
+        quota = {"nl": 20, "f19": 12}
         # targeted stream: rules of the catalogue that the regenerated validator inventory no longer contains verbatim
         try:
             gen = json.load(open(checklib.os.path.join(checklib.LEAN, "generated.json")))
@@ -172,6 +173,13 @@ class C06(Prop):
             mod, tag = propose(fmt, spec, rng, T)
             if mod is None:
                 continue
+            # the two known findings are met a bounded number of times per run (checklib stops consuming after 50 failures, known or not)
+            v = mod.get("value")
+            kf = "nl" if (isinstance(v, str) and v.endswith("\n")) else ("f19" if ((mod.get("set") == "uid" or mod.get("setitem") == "images") and not isinstance(v, (str, dict))) else None)
+            if kf is not None:
+                quota[kf] -= 1
+                if quota[kf] < 0:
+                    continue
             n += 1
             yield {"op": "c06", "args": {"fmt": fmt, "spec": spec, "mods": [mod], "tag": tag}}
 
